@@ -6,13 +6,19 @@
 // against py/carbon_ring.py (a transcription of carbon's class run by CPython) — a disagreement
 // between the two is a harness failure (exit 2), never a verdict.
 //
-// Real code: consistentHashing routes built with the admin command
-// "addRoute consistentHashing <key>  <dest>  <dest>…" on a real table. Every destination points at
-// a loopback address that refuses connections (spool=false, reconn=1h), so each line handed to a
+// Real code: consistentHashing routes on one real table. The first listing order of every case is
+// built with the admin command "addRoute consistentHashing <key> prefix=<p>  <dest> spool=false
+// reconn=3600000  <dest>…"; the other listing orders call what that command ends in
+// (destination.New + route.NewConsistentHashing + Table.AddRoute) because the command tokenizer
+// costs about half a CPU second per route under -race. Membership changes go through
+// route.Add(*Destination) (first step: destination parsed by imperatives.ParseDestinations) and
+// Table.DelDestination(key, i). Every destination points at a loopback address that refuses
+// connections (or has no port at all), spool=false, reconn=1h, so each line handed to a
 // destination is counted exactly once in that destination's
 // dest=<key>.unit=Metric.action=drop.reason=conn_down_no_spool counter (the hand-off is an
 // unbuffered channel send; Route.Flush() is served by the same relay loop, so after Flush() every
-// earlier hand-off has been counted: quiescence by steps, no deadline).
+// earlier hand-off has been counted: quiescence by steps, no deadline). Lines go to
+// Route.Dispatch; a sample also goes through Table.Dispatch (route filter prefix=c15v<case>.).
 //
 // Observations per route (= one listing order of one destination set, or one step of an
 // add/remove sequence):
@@ -24,7 +30,8 @@
 //	black-box, per line  a sample (targeted names first) is dispatched one line at a time: exactly
 //	                     one counter moves by one; that destination is the observed owner.
 //	white-box (volume)   route.VerifHashDestination (overlay accessor calling the route's own
-//	                     hasher) for every name; never the only observation behind a verdict class.
+//	                     hasher) for every name; reported under hasher-* signatures of its own, so
+//	                     what the counters saw is always visible separately.
 //
 // Across listing orders the observed owner (a (host, instance) pair) of every name must be the
 // same. After route.Add(d) a name whose owner changed must now be owned by d; after
@@ -41,12 +48,10 @@ import (
 	"os/exec"
 	"path/filepath"
 	"runtime"
-	"runtime/pprof"
 	"sort"
 	"strconv"
 	"strings"
 	"sync"
-	"sync/atomic"
 	"time"
 
 	"github.com/grafana/carbon-relay-ng/destination"
@@ -79,9 +84,13 @@ type rcase struct {
 	Muts    []mutation `json:"mutations"`
 	names   [][]byte
 	pos     []uint16 // oracle ring position of each name
-	nTarget int // names[:nTarget] are the targeted ones (ties, boundaries, wrap-around, collisions, exotic)
+	nTarget int      // names[:nTarget] are the targeted ones (ties, boundaries, wrap-around, collisions, exotic)
 	plainOK []bool
 }
+
+// prefix is the route filter of every route of this case: the table is shared by all workers, so a
+// line given to Table.Dispatch must reach this case's route only (Route.Dispatch ignores the filter).
+func (c *rcase) prefix() string { return fmt.Sprintf("c15v%d.", c.Index) }
 
 func (c *rcase) describe(cur []int) []string {
 	out := make([]string, len(cur))
@@ -197,11 +206,12 @@ var posIdx [65536][2]string
 func buildPosIdx() {
 	var have [65536]uint8
 	missing := 2 * 65536
+	buf := make([]byte, 0, 24)
 	for n := 0; missing > 0 && n < 6000000; n++ {
-		name := fmt.Sprintf("c15.t%d", n)
-		p := oracle.RingPosition([]byte(name))
+		buf = strconv.AppendInt(append(buf[:0], "c15.t"...), int64(n), 10)
+		p := oracle.RingPosition(buf)
 		if have[p] < 2 {
-			posIdx[p][have[p]] = name
+			posIdx[p][have[p]] = string(buf)
 			have[p]++
 			missing--
 		}
@@ -383,7 +393,9 @@ func (u *routeUnderTest) refreshKeys() {
 	}
 }
 
-func (u *routeUnderTest) send(name []byte, plain bool) {
+func (u *routeUnderTest) send(name []byte, plain bool) { u.sendVia(name, false) }
+
+func (u *routeUnderTest) sendVia(name []byte, viaTable bool) {
 	u.lineSeq++
 	line := make([]byte, 0, len(name)+24)
 	line = append(line, name...)
@@ -391,8 +403,10 @@ func (u *routeUnderTest) send(name []byte, plain bool) {
 	line = strconv.AppendInt(line, int64(u.lineSeq), 10)
 	line = append(line, ' ')
 	line = strconv.AppendInt(line, int64(1500000000+u.lineSeq%1000), 10)
-	if u.viaTab && plain {
+	if viaTable {
+		tabMu.RLock()
 		u.tab.Dispatch(line)
+		tabMu.RUnlock()
 	} else {
 		u.rt.Dispatch(line)
 	}
@@ -425,11 +439,6 @@ type verifier struct {
 	res *mon.Result
 }
 
-// phase timers (diagnostics in the run log only, never evidence or verdict)
-var tVerify, tWB, tGrouped, tOne, tGen int64
-
-func tick(acc *int64, t0 time.Time) { atomic.AddInt64(acc, int64(time.Since(t0))) }
-
 // newDestination builds a destination that can never connect and does not spool, either from the
 // text an operator would write or with destination.New and the same settings.
 func newDestination(tab *table.Table, routeKey, addr string, viaParser bool) *destination.Destination {
@@ -453,12 +462,14 @@ func newDestination(tab *table.Table, routeKey, addr string, viaParser bool) *de
 func buildRoute(tab *table.Table, c *rcase, key string, order []int, viaCommand bool) route.Route {
 	if viaCommand {
 		var cmd bytes.Buffer
-		fmt.Fprintf(&cmd, "addRoute consistentHashing %s", key)
+		fmt.Fprintf(&cmd, "addRoute consistentHashing %s prefix=%s", key, c.prefix())
 		for _, id := range order {
 			fmt.Fprintf(&cmd, "  %s spool=false reconn=3600000", c.All[id].Addr)
 		}
 		applyMu.Lock()
+		tabMu.Lock()
 		err := mon.Apply(tab, cmd.String())
+		tabMu.Unlock()
 		applyMu.Unlock()
 		if err != nil {
 			panic(fmt.Sprintf("case %d: %q: %v", c.Index, cmd.String(), err))
@@ -468,18 +479,37 @@ func buildRoute(tab *table.Table, c *rcase, key string, order []int, viaCommand 
 		for _, id := range order {
 			ds = append(ds, newDestination(tab, key, c.All[id].Addr, false))
 		}
-		m, _ := matcher.New("", "", "", "", "", "")
+		m, _ := matcher.New(c.prefix(), "", "", "", "", "")
 		rt, err := route.NewConsistentHashing(key, m, ds)
 		if err != nil {
 			panic(err)
 		}
+		tabMu.Lock()
 		tab.AddRoute(rt)
+		tabMu.Unlock()
 	}
+	tabMu.RLock()
 	rt := tab.GetRoute(key)
+	tabMu.RUnlock()
 	if rt == nil {
 		panic("route not found after it was added: " + key)
 	}
 	return rt
+}
+
+// The table is shared by the workers. Adding/removing a route while another goroutine is inside
+// Table.Dispatch is property C18's subject (removing a route shifts the slice dispatchers iterate:
+// a line is then handed to a route twice, which this check would report as not-exactly-one), so
+// route-list changes and Table.Dispatch calls are kept apart here.
+var tabMu sync.RWMutex
+
+func delRoute(tab *table.Table, key string) {
+	tabMu.Lock()
+	err := tab.DelRoute(key)
+	tabMu.Unlock()
+	if err != nil {
+		panic(err)
+	}
 }
 
 // the command parser keeps its token table in a package variable: commands are applied one at a time
@@ -487,12 +517,11 @@ var applyMu sync.Mutex
 
 func (u *routeUnderTest) witness(extra map[string]interface{}) map[string]interface{} {
 	w := map[string]interface{}{
-		"case":                 u.c.Index,
-		"route":                u.key,
+		"case":                  u.c.Index,
+		"route":                 u.key,
 		"destinations_in_order": u.c.describe(u.cur),
-		"dispatch_through":     map[bool]string{true: "Table.Dispatch", false: "Route.Dispatch"}[u.viaTab],
-		"initial_listing":      u.c.describe(u.c.Perms[len(u.c.Perms)-1]),
-		"mutations":            u.c.Muts,
+		"initial_listing":       u.c.describe(u.c.Perms[len(u.c.Perms)-1]),
+		"mutations":             u.c.Muts,
 	}
 	for k, v := range extra {
 		w[k] = v
@@ -503,9 +532,12 @@ func (u *routeUnderTest) witness(extra map[string]interface{}) map[string]interf
 // sendOne dispatches one line and returns the index (in route order) of the destination whose
 // counter moved; -1 and a violation if not exactly one counter moved by exactly one.
 func (v *verifier) sendOne(u *routeUnderTest, ni int) int {
-	name := u.c.names[ni]
+	return v.sendOneName(u, u.c.names[ni], false)
+}
+
+func (v *verifier) sendOneName(u *routeUnderTest, name []byte, viaTable bool) int {
 	before := u.counters()
-	u.send(name, u.c.plainOK[ni])
+	u.sendVia(name, viaTable)
 	var after []int64
 	hit, sum := -1, int64(0)
 	for step := 0; step < 50; step++ {
@@ -534,6 +566,9 @@ func (v *verifier) sendOne(u *routeUnderTest, ni int) int {
 		for i := range after {
 			deltas[u.c.All[u.cur[i]].Addr] = after[i] - before[i]
 		}
+		if viaTable {
+			deltas["(given to Table.Dispatch)"] = 1
+		}
 		v.res.Violate("not-exactly-one", fmt.Sprintf("one line for %q: the destinations' hand-off counters moved by %d in total (per destination %v), expected exactly one destination to account for it", name, sum, deltas),
 			u.witness(map[string]interface{}{"name": string(name), "name_hex": hex.EncodeToString(name), "deltas": deltas}))
 		return -1
@@ -546,8 +581,6 @@ func (v *verifier) sendOne(u *routeUnderTest, ni int) int {
 // black-box path for the sample.
 func (v *verifier) verify(u *routeUnderTest, wbNames, bbNames int, sample []int, what string) (wb []int32, bb map[int]int32) {
 	c := u.c
-	t0 := time.Now()
-	defer func() { tick(&tVerify, t0) }()
 	u.refreshKeys()
 	ring := oracle.NewRing(nodesOf(c, u.cur))
 	n := len(c.names)
@@ -560,12 +593,16 @@ func (v *verifier) verify(u *routeUnderTest, wbNames, bbNames int, sample []int,
 		keyToIdx[k] = i
 	}
 	mismatch := func(path string, ni int, got int) {
+		sig := "wrong-destination"
+		if strings.Contains(path, "accessor") {
+			sig = "hasher-wrong-destination"
+		}
 		nm := c.names[ni]
 		gotAddr := "?"
 		if got >= 0 && got < len(u.cur) {
 			gotAddr = c.All[u.cur[got]].Addr
 		}
-		v.res.Violate("wrong-destination", fmt.Sprintf("%s, %s: %q (ring position %d) is handled by %s, carbon's ring over the same (host, instance) set gives %s",
+		v.res.Violate(sig, fmt.Sprintf("%s, %s: %q (ring position %d) is handled by %s, carbon's ring over the same (host, instance) set gives %s",
 			what, path, nm, oracle.RingPosition(nm), gotAddr, c.All[u.cur[pred[ni]]].Addr),
 			u.witness(map[string]interface{}{"name": string(nm), "name_hex": hex.EncodeToString(nm), "position": oracle.RingPosition(nm),
 				"observed": gotAddr, "expected": c.All[u.cur[pred[ni]]].Addr, "observed_by": path, "ring_nodes": fmt.Sprint(ring.Nodes)}))
@@ -590,7 +627,7 @@ func (v *verifier) verify(u *routeUnderTest, wbNames, bbNames int, sample []int,
 		}
 		j, known := keyToIdx[dkey]
 		if !known {
-			v.res.Violate("wrong-destination", fmt.Sprintf("%s, hasher: %q -> destination index %d (key %q) which is not one of the route's destinations", what, nm, idx, dkey),
+			v.res.Violate("hasher-wrong-destination", fmt.Sprintf("%s, hasher: %q -> destination index %d (key %q) which is not one of the route's destinations", what, nm, idx, dkey),
 				u.witness(map[string]interface{}{"name": string(nm)}))
 			continue
 		}
@@ -601,8 +638,6 @@ func (v *verifier) verify(u *routeUnderTest, wbNames, bbNames int, sample []int,
 	}
 	v.res.Count("whitebox_lookups", wbNames)
 
-	tick(&tWB, t0)
-	t1 := time.Now()
 	// black-box, grouped by predicted destination
 	if bbNames > n {
 		bbNames = n
@@ -700,9 +735,6 @@ func (v *verifier) verify(u *routeUnderTest, wbNames, bbNames int, sample []int,
 		}
 	}
 
-	tick(&tGrouped, t1)
-	t2 := time.Now()
-	defer func() { tick(&tOne, t2) }()
 	// black-box, one line at a time
 	bb = map[int]int32{}
 	for _, ni := range sample {
@@ -713,6 +745,25 @@ func (v *verifier) verify(u *routeUnderTest, wbNames, bbNames int, sample []int,
 		bb[ni] = int32(u.cur[got])
 		if got != pred[ni] {
 			mismatch("hand-off counters (one line at a time)", ni, got)
+		}
+	}
+	// the same through Table.Dispatch: names carrying the route's prefix, so other names than above
+	if u.viaTab {
+		k := 0
+		for _, ni := range sample {
+			if !c.plainOK[ni] || k >= 40 {
+				continue
+			}
+			k++
+			nm := append([]byte(c.prefix()), c.names[ni]...)
+			want := ring.Get(nm)
+			got := v.sendOneName(u, nm, true)
+			v.res.Count("lines_attributed_through_table_dispatch", 1)
+			if got >= 0 && got != want {
+				v.res.Violate("wrong-destination", fmt.Sprintf("%s, Table.Dispatch + hand-off counters: %q (ring position %d) is handled by %s, carbon's ring over the same (host, instance) set gives %s",
+					what, nm, oracle.RingPosition(nm), c.All[u.cur[got]].Addr, c.All[u.cur[want]].Addr),
+					u.witness(map[string]interface{}{"name": string(nm), "position": oracle.RingPosition(nm), "observed": c.All[u.cur[got]].Addr, "expected": c.All[u.cur[want]].Addr, "observed_by": "Table.Dispatch + hand-off counters"}))
+			}
 		}
 	}
 	return wb, bb
@@ -739,14 +790,14 @@ func (v *verifier) runCase(c *rcase, tab *table.Table, p params) {
 	var lastBB map[int]int32
 	for pi, perm := range c.Perms {
 		key := fmt.Sprintf("c15c%dp%d", c.Index, pi)
-		// the first listing order and every fourth one go through the admin command; the others call
-		// the constructors the command itself ends in (the command tokenizer is very slow under -race)
-		viaCommand := pi == 0 || pi%4 == 3
+		// the first listing order goes through the admin command; the others call the constructors the
+		// command itself ends in (the command tokenizer costs ~0.5 s CPU per route under -race)
+		viaCommand := pi == 0
 		rt := buildRoute(tab, c, key, perm, viaCommand)
 		if viaCommand {
 			res.Count("routes_built_by_admin_command", 1)
 		}
-		u = &routeUnderTest{c: c, key: key, tab: tab, rt: rt, cur: append([]int(nil), perm...), viaTab: pi%3 == 1}
+		u = &routeUnderTest{c: c, key: key, tab: tab, rt: rt, cur: append([]int(nil), perm...), viaTab: pi <= 1}
 		res.Count("routes_built", 1)
 		bbN, wbN := bbOther, p.wbOther
 		if pi == 0 {
@@ -763,7 +814,11 @@ func (v *verifier) runCase(c *rcase, tab *table.Table, p params) {
 			res.Count("listing_orders_compared", 1)
 			report := func(ni int, a, b int32, path string) {
 				nm := c.names[ni]
-				res.Violate("order-dependent", fmt.Sprintf("%q goes to %s when the destinations are listed as %v and to %s when listed as %v (%s)",
+				sig := "order-dependent"
+				if strings.Contains(path, "accessor") {
+					sig = "hasher-order-dependent"
+				}
+				res.Violate(sig, fmt.Sprintf("%q goes to %s when the destinations are listed as %v and to %s when listed as %v (%s)",
 					nm, c.All[a].Addr, c.describe(refOrder), c.All[b].Addr, c.describe(perm), path),
 					u.witness(map[string]interface{}{"name": string(nm), "position": oracle.RingPosition(nm), "order_a": c.describe(refOrder), "order_b": c.describe(perm), "owner_a": c.All[a].Addr, "owner_b": c.All[b].Addr, "observed_by": path}))
 			}
@@ -779,9 +834,7 @@ func (v *verifier) runCase(c *rcase, tab *table.Table, p params) {
 			}
 		}
 		if pi != len(c.Perms)-1 {
-			if err := tab.DelRoute(key); err != nil {
-				panic(err)
-			}
+			delRoute(tab, key)
 		}
 	}
 
@@ -792,8 +845,10 @@ func (v *verifier) runCase(c *rcase, tab *table.Table, p params) {
 		spec := c.All[m.ID]
 		what := fmt.Sprintf("after step %d of the add/remove sequence (%s %s)", si+1, m.Kind, spec.Addr)
 		if m.Kind == "add" {
-			d := newDestination(tab, u.key, spec.Addr, si%2 == 0)
-			adder, ok := u.rt.(interface{ Add(*destination.Destination) })
+			d := newDestination(tab, u.key, spec.Addr, si == 0)
+			adder, ok := u.rt.(interface {
+				Add(*destination.Destination)
+			})
 			if !ok {
 				panic("consistentHashing route offers no Add method")
 			}
@@ -807,7 +862,10 @@ func (v *verifier) runCase(c *rcase, tab *table.Table, p params) {
 					k = i
 				}
 			}
-			if err := tab.DelDestination(u.key, k); err != nil {
+			tabMu.RLock()
+			err := tab.DelDestination(u.key, k) // the operator's path (web UI): table -> route
+			tabMu.RUnlock()
+			if err != nil {
 				res.Violate("del-error", fmt.Sprintf("DelDestination(%d) on a route with %d destinations: %v", k, len(u.cur), err), u.witness(nil))
 				break
 			}
@@ -819,18 +877,22 @@ func (v *verifier) runCase(c *rcase, tab *table.Table, p params) {
 			if before < 0 || after < 0 {
 				return
 			}
+			pre := ""
+			if strings.Contains(path, "accessor") {
+				pre = "hasher-"
+			}
 			nm := c.names[ni]
 			if m.Kind == "add" {
 				if after != before {
 					moved++
 					if int(after) != m.ID {
-						res.Violate("moved-on-add", fmt.Sprintf("%s: %q moved from %s to %s, which is not the destination that was added (%s)", what, nm, c.All[before].Addr, c.All[after].Addr, path),
+						res.Violate(pre+"moved-on-add", fmt.Sprintf("%s: %q moved from %s to %s, which is not the destination that was added (%s)", what, nm, c.All[before].Addr, c.All[after].Addr, path),
 							u.witness(map[string]interface{}{"name": string(nm), "position": oracle.RingPosition(nm), "before": c.All[before].Addr, "after": c.All[after].Addr, "step": si + 1, "observed_by": path}))
 					}
 				}
 			} else {
 				if int(before) != m.ID && after != before {
-					res.Violate("moved-on-del", fmt.Sprintf("%s: %q was on %s (not the removed destination) and moved to %s (%s)", what, nm, c.All[before].Addr, c.All[after].Addr, path),
+					res.Violate(pre+"moved-on-del", fmt.Sprintf("%s: %q was on %s (not the removed destination) and moved to %s (%s)", what, nm, c.All[before].Addr, c.All[after].Addr, path),
 						u.witness(map[string]interface{}{"name": string(nm), "position": oracle.RingPosition(nm), "before": c.All[before].Addr, "after": c.All[after].Addr, "step": si + 1, "observed_by": path}))
 				}
 				if int(before) == m.ID {
@@ -849,9 +911,7 @@ func (v *verifier) runCase(c *rcase, tab *table.Table, p params) {
 		prevWB, prevBB = wb, bb
 	}
 	res.Count("keys_moved_by_add_or_remove", moved)
-	if err := tab.DelRoute(u.key); err != nil {
-		panic(err)
-	}
+	delRoute(tab, u.key)
 
 	// non-triviality of the case, judged on the oracle's view of what was sent
 	ring := oracle.NewRing(nodesOf(c, c.Perms[0]))
@@ -1025,21 +1085,16 @@ func main() {
 	res.Assume("py/carbon_ring.py is a faithful transcription of carbon 0.9.x hashing.py; Python 2's None-before-everything order is supplied explicitly because CPython 3 runs it")
 	res.Assume("carbon-relay.py uses the ring with REPLICATION_FACTOR=1 and nodes (server, instance); ports are not part of a node")
 	mon.InitRepo()
-	if pf := os.Getenv("C15_PROF"); pf != "" {
-		f, _ := os.Create(pf)
-		pprof.StartCPUProfile(f)
-		defer pprof.StopCPUProfile()
-	}
 	buildPosIdx()
 
-	nCases := mon.N(40, 1000)
-	nNames := mon.N(5000, 50000)
+	nCases := mon.N(40, 500)
+	nNames := mon.N(5000, 20000)
 	p := params{
 		bbFirst: mon.N(5000, 10000), // grouped black-box lines on the first listing order
-		bbOther: mon.N(1000, 2000),  // ... on every other listing order
-		bbMut:   mon.N(2500, 5000),  // ... after every add/remove step
-		wbOther: mon.N(5000, 5000),  // accessor lookups on the listing orders between the first and the last (all names on those two and after every step)
-		nSample: mon.N(80, 100),     // lines attributed one at a time per route state
+		bbOther: mon.N(500, 1000),   // ... on every other listing order
+		bbMut:   mon.N(1500, 3000),  // ... after every add/remove step
+		wbOther: mon.N(2000, 5000),  // accessor lookups on the listing orders between the first and the last (all names on those two and after every step)
+		nSample: mon.N(50, 80),      // lines attributed one at a time per route state
 	}
 	pyEvery := mon.N(1, 10)
 	pyNames := mon.N(600, 600)
@@ -1082,6 +1137,7 @@ func main() {
 	// P around, the hand-off stays on the worker's P instead of waking another thread
 	runtime.GOMAXPROCS(workers)
 	jobs := make(chan int)
+	tab := mon.NewTable("", "", false, filepath.Join(mon.Scratch(), "c15-spool")) // one real table shared by all workers
 	var wg sync.WaitGroup
 	var sampleMu sync.Mutex
 	sampled := 0
@@ -1089,12 +1145,9 @@ func main() {
 		wg.Add(1)
 		go func(w int) {
 			defer wg.Done()
-			tab := mon.NewTable("", "", false, filepath.Join(mon.Scratch(), fmt.Sprintf("c15-spool-%d", w)))
 			v := &verifier{res: res}
 			for i := range jobs {
-				tg := time.Now()
 				c := genCase(mon.Seed(), i, nNames)
-				tick(&tGen, tg)
 				res.LogCase("case %d destinations=%v orders=%d mutations=%v names=%d", i, c.describe(c.Perms[0]), len(c.Perms), c.Muts, len(c.names))
 				v.runCase(c, tab, p)
 				res.Eval(1)
@@ -1117,10 +1170,7 @@ func main() {
 	}
 	close(jobs)
 	wg.Wait()
-	fmt.Printf("cpu-ish phase times summed over workers: gen=%v verify=%v (whitebox=%v grouped=%v one-by-one=%v)\n", time.Duration(tGen), time.Duration(tVerify), time.Duration(tWB), time.Duration(tGrouped), time.Duration(tOne))
-	tp := time.Now()
 	n := <-pyDone
-	fmt.Printf("waited %v more for python\n", time.Since(tp))
 	res.Count("oracle_lookups_crosschecked_with_cpython", n)
 	res.Floor("oracle_lookups_crosschecked_with_cpython", n, 1)
 	res.Floor("rings", len(mine), nCases)
